@@ -6,6 +6,7 @@ package c11
 import (
 	stdjson "encoding/json"
 	"fmt"
+	"io"
 	"os"
 	"sort"
 	"strings"
@@ -30,7 +31,7 @@ func init() {
 	ev.Register(&ev.Check{
 		ID:             "C11",
 		Level:          "model_checking",
-		Rule:           "(a) histories: ALL sequences of <= 3 (thorough 4) operations from a 38-operation alphabet (8 schema methods x {plain schema, schema with types/allOf/enum rule, invalid schema}, Check/Len on 3 documents, 4 enum-rule methods, 4 regex-type methods) over one pool of live objects, plus each operation repeated 12 times and 3 round-robins of the whole alphabet; every result (verdict, code, position, AST, example bytes, used-type list, enum values) must equal the result on fresh objects, and every value handed to the caller must still equal its snapshot at the end of the history; (c) the same with every single sync.Pool answer deviated (fresh object / oldest pooled object) for histories <= 2; (b) map order: for every scenario of a corpus (type-reference / allOf / additionalProperties / key-shortcut families, type graphs, multi-shortcut objects) ALL single deviations (descending, rotations) of every dynamic range-over-map instance (thorough: pairs) - the library is built through an overlay that turns every `for k := range map` into iteration over an explicitly ordered key list - must leave all public results unchanged. states = distinct (history prefix) pool states, transitions = operations executed, traces_validated_against_impl = histories/scenario runs executed on the real library.",
+		Rule:           "(a) histories: ALL sequences of <= 3 (thorough 4) operations from a 46-operation alphabet (8 schema methods x {plain schema, schema with types/allOf/enum rule, invalid schema}, Check/Len on 3 documents and on an embedded document with trailing text, Validate and the NextLexeme stream of LIVE document objects that have only been through the rewinding Len/Check, 4 enum-rule methods, 4 regex-type methods) over one pool of live objects, plus each operation repeated 12 times and 3 round-robins of the whole alphabet; every result (verdict, code, position, AST, example bytes, used-type list, enum values) must equal the result on fresh objects, and every value handed to the caller must still equal its snapshot at the end of the history; (c) the same with every single sync.Pool answer deviated (fresh object / oldest pooled object) for histories <= 2; (b) map order: for every scenario of a corpus (type-reference / allOf / additionalProperties / key-shortcut families, type graphs, multi-shortcut objects) ALL single deviations (descending, rotations) of every dynamic range-over-map instance (thorough: pairs) - the library is built through an overlay that turns every `for k := range map` into iteration over an explicitly ordered key list - must leave all public results unchanged. states = distinct (history prefix) pool states, transitions = operations executed, traces_validated_against_impl = histories/scenario runs executed on the real library.",
 		Workers:        func(string) int { return 16 },
 		Run:            run,
 		Replay:         replay,
@@ -39,7 +40,7 @@ func init() {
 		ThoroughBudget: 14 * time.Minute,
 		Assumptions: []string{
 			"message text is not compared (it may embed map-ordered key lists and pointer-derived names); verdict, code, position and structured values are",
-			"a Document object already consumed by Validate/NextLexeme is not re-validated (the interface documents a one-pass stream): every Validate gets a fresh document object",
+			"a Document object already consumed by Validate/NextLexeme is not re-validated (the interface documents a one-pass stream): it is replaced by a fresh object; live objects are validated only after the rewinding Len/Check",
 		},
 	})
 }
@@ -69,12 +70,22 @@ func newPool() *pool {
 	p.U.AddType("@num", jschema.New("@num", "1"))
 	p.U.AddType("@key", jschema.New("@key", "\"k\" // {regex: \"^k\"}"))
 	p.X = jschema.New("invalid", invalidText)
-	for i, t := range docTexts {
-		p.D = append(p.D, json.New(fmt.Sprintf("doc%d", i), t))
+	for i := range docTexts {
+		p.D = append(p.D, newDoc(i))
 	}
+	p.D = append(p.D, newDoc(4))
 	p.E = enum.New("@e", "[\n  1, // one\n  \"two\"\n]")
 	p.R = regex.New("@r", "/^ab+c$/")
 	return p
+}
+
+// newDoc: documents 0..3 are plain; 4 is an embedded document (trailing text
+// allowed and present).
+func newDoc(i int) jlib.Document {
+	if i == 4 {
+		return json.New("docT", docTexts[0]+"\nGET /next", json.AllowTrailingNonSpaceCharacters())
+	}
+	return json.New(fmt.Sprintf("doc%d", i), docTexts[i])
 }
 
 func errStr(err error) string {
@@ -153,6 +164,42 @@ func alphabet() []opT {
 		ops = append(ops, opT{fmt.Sprintf("doc%d.Len", i), func(p *pool) (string, *held) {
 			n, err := p.D[i].Len()
 			return fmt.Sprint(n, " ", errStr(err)), nil
+		}})
+	}
+	// live document objects that have only been through the rewinding Len/Check:
+	// validating / streaming them must give what a fresh object gives. A consumed
+	// object is replaced by a fresh one (one-pass stream).
+	for _, k := range []int{0, 4} {
+		k := k
+		mk := func() jlib.Document { return newDoc(k) }
+		if k == 4 {
+			ops = append(ops, opT{"docT.Check", func(p *pool) (string, *held) { return errStr(p.D[k].Check()), nil }})
+			ops = append(ops, opT{"docT.Len", func(p *pool) (string, *held) {
+				n, err := p.D[k].Len()
+				return fmt.Sprint(n, " ", errStr(err)), nil
+			}})
+		}
+		ops = append(ops, opT{fmt.Sprintf("P.Validate(live doc%d)", k), func(p *pool) (string, *held) {
+			err := p.P.Validate(p.D[k])
+			p.D[k] = mk()
+			return errStr(err), nil
+		}})
+		ops = append(ops, opT{fmt.Sprintf("doc%d.NextLexeme*", k), func(p *pool) (string, *held) {
+			var b strings.Builder
+			for i := 0; i < 200; i++ {
+				lex, err := p.D[k].NextLexeme()
+				if err != nil {
+					if err == io.EOF {
+						b.WriteString("EOF")
+					} else {
+						b.WriteString(errStr(err))
+					}
+					break
+				}
+				fmt.Fprintf(&b, "%s[%d:%d];", lex.Type(), lex.Begin(), lex.End())
+			}
+			p.D[k] = mk()
+			return b.String(), nil
 		}})
 	}
 	ops = append(ops,
